@@ -170,6 +170,30 @@ pub struct F23 {
     pub d: Vec<u32>,
 }
 
+/// list of strings in an attribute (items escaped for the attribute quote) next to another attribute
+#[derive(Debug, Clone, PartialEq, Serialize, Deserialize)]
+pub struct F24 {
+    #[serde(rename = "@items", default)]
+    pub items: Vec<String>,
+    #[serde(rename = "@one")]
+    pub one: String,
+}
+
+#[derive(Debug, Clone, PartialEq, Serialize, Deserialize)]
+pub enum Choice3 {
+    One,
+    Name(String),
+    Num(u32),
+    #[serde(rename = "$text")]
+    Text(String),
+}
+/// mixed list whose element choices include newtype variants with primitive content
+#[derive(Debug, Clone, PartialEq, Serialize, Deserialize)]
+pub struct F25 {
+    #[serde(rename = "$value", default)]
+    pub any: Vec<Choice3>,
+}
+
 // ---- outside the round-trippable domain (C13 / C07 only)
 #[derive(Debug, Clone, PartialEq, Serialize, Deserialize)]
 pub struct H01 {
@@ -203,7 +227,7 @@ pub struct H06 {
     pub a: Hostile,
 }
 
-pub const TYPES: &[&str] = &["F01", "F02", "F03", "F04", "F05", "F07", "F08", "F11", "F15", "F16", "F17", "F18", "F19", "F20", "F22", "F23", "H01", "H02", "H05", "H06"];
+pub const TYPES: &[&str] = &["F01", "F02", "F03", "F04", "F05", "F07", "F08", "F11", "F15", "F16", "F17", "F18", "F19", "F20", "F22", "F23", "F24", "F25", "H01", "H02", "H05", "H06"];
 
 /// Apply `$body` with `T` bound to the family type named `$name`.
 #[macro_export]
@@ -226,6 +250,8 @@ macro_rules! with_type {
             "F20" => { type $T = $crate::family::F20; $body }
             "F22" => { type $T = $crate::family::F22; $body }
             "F23" => { type $T = $crate::family::F23; $body }
+            "F24" => { type $T = $crate::family::F24; $body }
+            "F25" => { type $T = $crate::family::F25; $body }
             "H01" => { type $T = $crate::family::H01; $body }
             "H02" => { type $T = $crate::family::H02; $body }
             "H05" => { type $T = $crate::family::H05; $body }
